@@ -251,6 +251,15 @@ def Party.pickSlot (p : Party) : Option Nat :=
 
 def release (ss : List Slot) (i : Nat) : List Slot := ss.set i { ss.getD i {} with used := false }
 
+/-- my DH key for a key id: the current one, the previous one, or none ("peer requested keyid …") -/
+def Party.myKeyFor (p : Party) (myKid : Nat) : Option Id :=
+  if myKid = p.myKeyId then some p.myCur
+  else if myKid = pred32 p.myKeyId then some p.myLast else none
+
+def Party.theirKeyFor (p : Party) (theirKid : Nat) : Option Id :=
+  if theirKid = p.theirKeyId then some p.theirCur
+  else if theirKid = pred32 p.theirKeyId ∧ p.theirLast.isSome then p.theirLast else none
+
 /-- `calcDataKeys`: index of the slot holding the keys for (myKeyId, theirKeyId), or `none` = error.
     The party is returned in both cases: a stale slot picked for reuse is released even when the key ids
     then turn out to be unacceptable. -/
@@ -261,13 +270,7 @@ def Party.calcDataKeys (p : Party) (myKid theirKid : Nat) : Party × Option Nat 
     match p.pickSlot with
     | none => (p, none)
     | some i =>
-      let my : Option Id :=
-        if myKid = p.myKeyId then some p.myCur
-        else if myKid = pred32 p.myKeyId then some p.myLast else none
-      let their : Option Id :=
-        if theirKid = p.theirKeyId then some p.theirCur
-        else if theirKid = pred32 p.theirKeyId ∧ p.theirLast.isSome then p.theirLast else none
-      match my, their with
+      match p.myKeyFor myKid, p.theirKeyFor theirKid with
       | some m, some t =>
         ({ p with slots := p.slots.set i ⟨true, theirKid, myKid, m, t, zeros 8⟩ }, some i)
       | _, _ => ({ p with slots := release p.slots i }, none)
@@ -410,20 +413,23 @@ def Party.tlvLoop (p : Party) (o : Out) : List RTlv → R (Party × Out)
         | .panic => .panic
         | .ok (p, m) => .ok (p, { o with send := [m] })
 
-/-- the part of `processData` after a verified MAC: counter check, key rotation, plaintext split.
-    `tk`, `mk` = sender / recipient key ids of the message, `i` = slot -/
-def Party.acceptData (p : Party) (i : Nat) (d : DataMsg) : R (Party × Out) :=
-  let s := p.slots.getD i {}
-  -- `bytes.Compare(counter, slot.theirLastCtr[:]) <= 0` → "counter regressed" (8-byte big-endian compare)
-  if !bytesGt d.ctr s.lastCtr then .ok (p, { enc := true, err := true }) else
-  let p := { p with slots := p.slots.set i { s with lastCtr := d.ctr } }
-  let p := if d.rkid = p.myKeyId then p.rotate else p
-  let p :=
-    if d.skid = p.theirKeyId then
-      let f := fun (s : Slot) => s.theirKeyId == pred32 d.skid
-      { p with slots := evictSlots f p.slots, oldMacs := p.oldMacs ++ evictedKeys f p.slots,
-               theirLast := some p.theirCur, theirKeyId := succ32 p.theirKeyId, theirCur := d.next }
-    else p
+/-- `copy(slot.theirLastCtr[:], counter)` -/
+def Party.storeCtr (p : Party) (i : Nat) (c : Bytes) : Party :=
+  { p with slots := p.slots.set i { p.slots.getD i {} with lastCtr := c } }
+
+/-- `if myKeyId == c.myKeyId { c.rotateDHKeys() }` -/
+def Party.rotateMine (p : Party) (rkid : Nat) : Party := if rkid = p.myKeyId then p.rotate else p
+
+/-- `if theirKeyId == c.theirKeyId { evict slots using their retired key id; … c.theirKeyId++ … }` -/
+def Party.rotateTheirs (p : Party) (skid : Nat) (next : Id) : Party :=
+  if skid = p.theirKeyId then
+    let f := fun (s : Slot) => s.theirKeyId == pred32 skid
+    { p with slots := evictSlots f p.slots, oldMacs := p.oldMacs ++ evictedKeys f p.slots,
+             theirLast := some p.theirCur, theirKeyId := succ32 p.theirKeyId, theirCur := next }
+  else p
+
+/-- plaintext split and the TLV loop -/
+def Party.deliver (p : Party) (d : DataMsg) : R (Party × Out) :=
   match d.extra with
   | some st =>
     -- plaintext = 0 ‖ padding TLV ‖ extra TLV
@@ -431,6 +437,13 @@ def Party.acceptData (p : Party) (i : Nat) (d : DataMsg) : R (Party × Out) :=
   | none =>
     let r := splitPlain (dataPlain d.text none)
     p.tlvLoop { out := r.1, enc := true, err := !r.2.2 } (r.2.1.map rtlvOfBytes)
+
+/-- the part of `processData` after a verified MAC: counter check, key rotation, plaintext split.
+    `i` = the slot `calcDataKeys` returned -/
+def Party.acceptData (p : Party) (i : Nat) (d : DataMsg) : R (Party × Out) :=
+  -- `bytes.Compare(counter, slot.theirLastCtr[:]) <= 0` → "counter regressed" (8-byte big-endian compare)
+  if !bytesGt d.ctr (p.slots.getD i {}).lastCtr then .ok (p, { enc := true, err := true }) else
+  (((p.storeCtr i d.ctr).rotateMine d.rkid).rotateTheirs d.skid d.next).deliver d
 
 /-! ### Receive -/
 
